@@ -115,6 +115,11 @@ static CB_TRIGGER_KIND: AtomicU32 = AtomicU32::new(0);
 static CB_TRIGGER_NTH: AtomicU32 = AtomicU32::new(0);
 static CB_FIRED: AtomicU32 = AtomicU32::new(0);
 static SENDER_DONE: AtomicU32 = AtomicU32::new(0);
+/// Rendezvous variant: the receiver announces that it sits inside the chosen callback, the sender
+/// then announces that it starts, and both go on at the same moment (all Relaxed).
+static SENDER_STARTED: AtomicU32 = AtomicU32::new(0);
+static RECEIVER_IN_CB: AtomicU32 = AtomicU32::new(0);
+static CB_RENDEZVOUS: AtomicU32 = AtomicU32::new(0);
 
 thread_local! {
     static IS_RECEIVER: std::cell::Cell<bool> = const { std::cell::Cell::new(false) };
@@ -135,6 +140,18 @@ fn cb_hook(kind: usize) {
         if let Some(f) = reentrant {
             CB_FIRED.store(1, Ordering::Relaxed);
             f();
+        } else if CB_RENDEZVOUS.load(Ordering::Relaxed) != 0 {
+            // mt: the sender starts its action at the moment this callback returns, so that the
+            // receiver's next atomic step races the sender's steps.
+            RECEIVER_IN_CB.store(1, Ordering::Relaxed);
+            let mut spins = 0_u32;
+            while SENDER_STARTED.load(Ordering::Relaxed) == 0 && spins < 400 {
+                std::thread::yield_now();
+                spins += 1;
+            }
+            if SENDER_STARTED.load(Ordering::Relaxed) != 0 {
+                CB_FIRED.store(3, Ordering::Relaxed);
+            }
         } else {
             // mt: hold this thread here until the sender is done (bounded: never a harness deadlock).
             let mut spins = 0_u32;
@@ -163,6 +180,9 @@ fn cb_reset(plan: &CbPlan) {
     CB_TRIGGER_NTH.store(u32::from(n), Ordering::Relaxed);
     CB_FIRED.store(0, Ordering::Relaxed);
     SENDER_DONE.store(0, Ordering::Relaxed);
+    SENDER_STARTED.store(0, Ordering::Relaxed);
+    RECEIVER_IN_CB.store(0, Ordering::Relaxed);
+    CB_RENDEZVOUS.store(u32::from(plan.rendezvous), Ordering::Relaxed);
 }
 
 fn new_waker(c: &Arc<WakerCounters>) -> Waker {
@@ -241,6 +261,11 @@ struct CbPlan {
     /// The sender's whole action happens inside the n-th (0-based) invocation of this callback kind
     /// (`seq`: re-entrantly on the same thread; `mt`: the receiver thread waits there for the sender).
     sender_in: Option<(CbKind, u8)>,
+    /// `mt` only, with `sender_in`: instead of waiting for the sender to finish, the receiver waits
+    /// inside the callback until the sender *starts* (and the sender waits for the receiver to be
+    /// there), so the two go on simultaneously.
+    #[serde(default)]
+    rendezvous: bool,
 }
 
 #[derive(Clone, Debug, Serialize, Deserialize)]
@@ -643,6 +668,14 @@ fn run_pair<T: Tx, R: Rx>(
             let mut events = Vec::new();
             IS_RECEIVER.with(|c| c.set(false));
             s_shared.wait_go();
+            if CB_RENDEZVOUS.load(Ordering::Relaxed) != 0 {
+                let mut spins = 0_u32;
+                while RECEIVER_IN_CB.load(Ordering::Relaxed) == 0 && spins < 400 {
+                    std::thread::yield_now();
+                    spins += 1;
+                }
+                SENDER_STARTED.store(1, Ordering::Relaxed);
+            }
             yields(sy);
             sender_act(tx, action, &s_shared, &mut events);
             SENDER_DONE.store(1, Ordering::Relaxed);
@@ -984,6 +1017,10 @@ impl Scenario for OnceScenario {
                     _ => "reentrant-sender-in-waker-drop",
                 });
             }
+            3 => {
+                ctx.fault("receiver-and-sender-released-together-from-waker-callback");
+                ctx.probe("rendezvous-in-waker-callback");
+            }
             2 => {
                 ctx.fault("receiver-held-in-waker-callback-until-sender-done");
                 ctx.probe(match self.cb.sender_in {
@@ -1093,8 +1130,19 @@ fn gen_storm_round(rng: &mut Rng, storages: &[Storage]) -> OnceScenario {
             7 => (SenderAction::Send, vec![RecvOp::Poll(0), RecvOp::Poll(1)]),
             _ => (SenderAction::Send, vec![RecvOp::Poll(0), RecvOp::Drop]),
         };
+        let polls = receiver.iter().filter(|o| matches!(o, RecvOp::Poll(_))).count();
+        let mut cb = CbPlan::default();
+        if polls > 0 && rng.bool() {
+            // Release both threads at the moment a chosen waker callback returns: the receiver's
+            // next step (the registration CAS after a clone, the state swap after a drop) then
+            // races the sender's first steps.
+            let kind = if rng.chance(2, 3) { CbKind::Clone } else { CbKind::Drop };
+            let max = if kind == CbKind::Clone { polls } else { 2 * polls };
+            cb.sender_in = Some((kind, rng.below(max as u64) as u8));
+            cb.rendezvous = true;
+        }
         return OnceScenario {
-            cb: CbPlan::default(),
+            cb,
             storage,
             sender,
             sender_yields: rng.below(3) as u8,
